@@ -146,9 +146,16 @@ func newCRun(c *CCase) (*cRun, error) {
 	fc := thor.SoloFork
 	fc.HAYABUSA = c.Hayabusa
 	fc.BLOCKLIST = math.MaxUint32
-	g, err := testchain.CreateGenesis(genesis.DevConfig{ForkConfig: &fc, LaunchTime: 1_700_000_000}, c.MBP, c.Epoch, c.TP)
-	if err != nil {
-		return nil, err
+	// genesis construction opens a throw-away in-memory database that is never closed: build one per configuration only
+	key := fmt.Sprintf("%d/%d/%d/%d", c.Epoch, c.TP, c.Hayabusa, c.MBP)
+	g, ok := genesisCache[key]
+	if !ok {
+		var err error
+		g, err = testchain.CreateGenesis(genesis.DevConfig{ForkConfig: &fc, LaunchTime: 1_700_000_000}, c.MBP, c.Epoch, c.TP)
+		if err != nil {
+			return nil, err
+		}
+		genesisCache[key] = g
 	}
 	ch, err := testchain.NewIntegrationTestChainWithGenesis(g, &fc, c.Epoch)
 	if err != nil {
@@ -164,7 +171,12 @@ func newCRun(c *CCase) (*cRun, error) {
 	return r, nil
 }
 
-func (r *cRun) close() { r.ch.LogDB().Close() }
+func (r *cRun) close() {
+	r.ch.LogDB().Close()
+	r.ch.Database().Close()
+}
+
+var genesisCache = map[string]*genesis.Genesis{}
 
 func (r *cRun) view() *Sim {
 	best := r.ch.Repo().BestBlockSummary()
@@ -586,7 +598,7 @@ func runContractCase(c *CCase, gen *hx.Rand, nblocks int) (*cRun, error) {
 
 // ContractSlice runs the contract-level part of a check.
 func ContractSlice(ctx *hx.Ctx, prop string) {
-	n := ctx.Scale(40, 1500)
+	n := ctx.Scale(40, 1000)
 	root := hx.NewRand(ctx.Seed ^ 0xC0117AC7)
 	for i := 0; i < n; i++ {
 		g := root.Fork(uint64(i))
